@@ -8,11 +8,14 @@
 mod engines {
 	pub mod encoding;
 	pub mod input;
+	pub mod tomlorder;
 }
 mod props {
+	pub mod c01;
 	pub mod c07;
 	pub mod c09;
 }
+mod gen;
 mod out;
 mod util;
 mod xtapi;
@@ -32,6 +35,10 @@ fn main() {
 		let mut out = Out::new();
 		let mut rng = Rng::new(seed);
 		match prop {
+			"C01" => {
+				engines::tomlorder::run(&mut out, &mut rng.fork(), thorough);
+				props::c01::run(&mut out, &mut rng.fork(), thorough);
+			}
 			"C07" => {
 				engines::encoding::run(&mut out, &mut rng.fork(), thorough);
 				props::c07::run(&mut out, &mut rng.fork(), thorough);
